@@ -99,6 +99,10 @@ class PinchProblem:
         dict
             The loaded input structure.
         """
+        # Results cached by target() belong to the previously loaded input
+        self._results = None
+        self._master_zone = None
+
         if isinstance(source, TargetInput):
             self._problem_data = source
             return self._problem_data
